@@ -177,6 +177,9 @@ func VrfC17Consensus() {
 		vrf_assert(vrfAttempt.accepted == 0, "C17.error-implies-not-applied")
 	}
 	vrf_assert(vrfAttempt.lCalls <= retries+1 && vrfAttempt.rCalls <= retries+1, "C17.bounded-attempts")
+	// whatever the outcome, the component can still be shut down afterwards
+	// (the change holds the shutdown lock only while it talks to Raft)
+	vrf_assert(vrf_locks_held() == 0, "C17.shutdown-lock-released")
 	vrf_reach("C17.consensus.end")
 }
 
